@@ -12,6 +12,9 @@
 // crypto and the reference Hi), esc / unesc / atoi / b64d (the stdlib pieces the model re-implements).
 // direct oracle: the reference server accepts exactly when the secret is right; two attempts (also on the same Auth
 // value) use different nonces.
+// Reuse (kind xs / auth14s): 2 and 3 exchanges on ONE Auth value of every mechanism, each on a new connection, the
+// earlier ones completed / rejected with 535 / 454 / dropped at every step, the last one honest: it must be accepted by
+// the reference verifier; the model threads the mechanism state (LOGIN step counter, scramAuth fields) through the calls.
 package c14
 
 import (
@@ -185,11 +188,33 @@ func newRef(sp *spec, srvState *tls.ConnectionState) *ref {
 
 // one Auth call with the given Auth value; returns class, lines, replies, whether the reference accepted
 func runOnce(sp *spec, a smtp.Auth, srvState *tls.ConnectionState) (string, []string, []reply, bool, error) {
+	return runDisturbed(sp, a, srvState, "ok", 0)
+}
+
+// runDisturbed is one exchange in which the server deviates at step [at] of the exchange (0 = the AUTH command):
+// "f535" rejects with 535, "t454" answers 454 (temporary failure), "drop" closes the connection without a reply;
+// "ok" is the undisturbed reference server.
+func runDisturbed(sp *spec, a smtp.Auth, srvState *tls.ConnectionState, mode string, at int) (string, []string, []reply, bool, error) {
 	rs := newRef(sp, srvState)
 	var replies []reply
 	k := 0
+	dropped := false
 	sess, err := saslx.NewSession("localhost", []string{"AUTH PLAIN LOGIN CRAM-MD5 XOAUTH2 SCRAM-SHA-1 SCRAM-SHA-256"}, func(line string) string {
-		r := rs.reply(k, line)
+		if dropped {
+			return ""
+		}
+		var r reply
+		switch {
+		case line == "*" || line == "QUIT" || mode == "ok" || k != at:
+			r = rs.reply(k, line)
+		case mode == "f535":
+			r = reply{535, "5.7.8 authentication failed"}
+		case mode == "t454":
+			r = reply{454, "4.7.0 temporary authentication failure"}
+		default:
+			dropped = true
+			return ""
+		}
 		if line != "*" && line != "QUIT" {
 			k++
 		}
@@ -340,6 +365,92 @@ func runX(r *hx.Run, c hx.Case) {
 	r.Add(mc, fmt.Sprintf("%s S:%s", hx.Hex([]byte(class)), hexLines(lines)), true)
 }
 
+var exSteps = map[string]int{"plain": 1, "login": 3, "cram": 2, "xoauth2": 1, "sha1": 4, "sha256": 4, "sha1plus": 4, "sha256plus": 4}
+
+// several exchanges on the SAME Auth value, each on a new connection: the first n-1 are disturbed (mode, at), the
+// last one is honest with the right secret and must be accepted.
+// case: xs <mech> <user> <secret> <ident> <salt> <iter> <tlsver> <mode> <at> <n>
+func runXS(r *hx.Run, c hx.Case) {
+	sp := &spec{mech: c.Args[0], right: true, user: string(hx.UnHex(c.Args[1])), secret: string(hx.UnHex(c.Args[2])),
+		ident: string(hx.UnHex(c.Args[3])), salt: hx.UnHex(c.Args[4])}
+	sp.iter, _ = strconv.Atoi(c.Args[5])
+	v, _ := strconv.Atoi(c.Args[6])
+	sp.tlsVer = uint16(v)
+	mode := c.Args[7]
+	at, _ := strconv.Atoi(c.Args[8])
+	n, _ := strconv.Atoi(c.Args[9])
+	scArg := hx.Hex([]byte(strings.Join(c.Args, " ")))
+	var cst, sst *tls.ConnectionState
+	if isPlus(sp.mech) {
+		cc, sc, err := saslx.NewTLSPair(sp.tlsVer)
+		if err != nil {
+			r.Fail(c.ID, "harness", err.Error())
+			return
+		}
+		a, b := cc.ConnectionState(), sc.ConnectionState()
+		cst, sst = &a, &b
+		defer cc.Close()
+		defer sc.Close()
+	}
+	valid := true
+	var nu, np []byte
+	var uok, pok bool
+	if isScram(sp.mech) {
+		nu, uok = saslx.Opaque(saslx.EscapeName(sp.user))
+		np, pok = saslx.Opaque(sp.secret)
+		valid = uok && pok
+	}
+	a := mkAuth(sp, cst)
+	var obsParts, scripts []string
+	var raws [][]byte
+	seen := map[string]bool{}
+	for i := 0; i < n; i++ {
+		m := mode
+		if i == n-1 {
+			m = "ok"
+		}
+		class, lines, replies, accepted, err := runDisturbed(sp, a, sst, m, at)
+		if err != nil {
+			r.Fail(c.ID, "harness", err.Error())
+			return
+		}
+		raw, txt := nonces(lines)
+		raws = append(raws, raw...)
+		for _, t := range txt {
+			if seen[t] {
+				r.Fail(c.ID, "nonce-reused", fmt.Sprintf("%s: exchange %d on the same Auth value reuses the nonce %q", sp.mech, i+1, t))
+			}
+			seen[t] = true
+		}
+		if valid && m == "ok" && (class != "OK" || !accepted) {
+			r.Fail(c.ID, "reuse-rejected-with-right-credentials", fmt.Sprintf("%s: exchange %d of %d on the same Auth value (earlier ones: %s at step %d) with the right secret: class %s, reference accepted=%v, client lines %q",
+				sp.mech, i+1, n, mode, at, class, accepted, lines))
+		}
+		if m != "ok" && class == "OK" {
+			r.Fail(c.ID, "disturbed-exchange-reported-success", fmt.Sprintf("%s: exchange %d (%s at step %d) returned nil", sp.mech, i+1, m, at))
+		}
+		obsParts = append(obsParts, fmt.Sprintf("%s S:%s", hx.Hex([]byte(class)), hexLines(lines)))
+		scripts = append(scripts, replyArg(replies))
+	}
+	r.Dist["reuse:"+sp.mech]++
+	r.Dist["reuse-mode:"+mode]++
+	var margs []string
+	switch sp.mech {
+	case "plain":
+		margs = []string{"plain", hx.Hex([]byte(sp.ident)), hx.Hex([]byte(sp.user)), hx.Hex([]byte(sp.secret)), hx.Hex([]byte("localhost")), "0", hx.Hex([]byte("localhost")), "0"}
+	case "login":
+		margs = []string{"login", hx.Hex([]byte(sp.user)), hx.Hex([]byte(sp.secret)), hx.Hex([]byte("localhost")), "0", hx.Hex([]byte("localhost")), "0"}
+	case "cram":
+		margs = []string{"cram", hx.Hex([]byte(sp.user)), hx.Hex([]byte(sp.secret))}
+	case "xoauth2":
+		margs = []string{"xoauth2", hx.Hex([]byte(sp.user)), hx.Hex([]byte(sp.secret))}
+	default:
+		margs = []string{"scram", sp.mech, hx.Hex([]byte(sp.user)), hx.Hex([]byte(sp.secret)), opt(nu, uok), opt(np, pok), hx.HexList(raws), saslx.TLSArg(cst)}
+	}
+	mc := hx.Case{ID: c.ID, Kind: "auth14s", Args: append(append([]string{"0", strings.Join(scripts, "/")}, margs...), scArg)}
+	r.Add(mc, strings.Join(obsParts, " | "), true)
+}
+
 func runCase(r *hx.Run, c hx.Case) {
 	defer func() {
 		if p := recover(); p != nil {
@@ -349,6 +460,10 @@ func runCase(r *hx.Run, c hx.Case) {
 	switch c.Kind {
 	case "x":
 		runX(r, c)
+	case "xs":
+		runXS(r, c)
+	case "auth14s":
+		runXS(r, hx.Case{ID: c.ID, Kind: "xs", Args: strings.Split(string(hx.UnHex(c.Args[len(c.Args)-1])), " ")})
 	case "auth14":
 		runX(r, hx.Case{ID: c.ID, Kind: "x", Args: strings.Split(string(hx.UnHex(c.Args[len(c.Args)-1])), " ")})
 	case "hash":
@@ -477,6 +592,35 @@ func Run(r *hx.Run, replay []hx.Case) {
 		}
 		runCase(r, hx.Case{ID: r.NewID(), Kind: "x", Args: []string{m, right, hx.Hex([]byte(user)), hx.Hex([]byte(secret)), hx.Hex([]byte(ident)),
 			hx.Hex(randBytes(r, 1+r.Rng.Intn(64))), strconv.Itoa(iter), strconv.Itoa(ver), retry, "1"}})
+	}
+	// reuse of one Auth value for 2 and 3 exchanges (new connection each): every mechanism x first exchange(s)
+	// {completed, rejected with 535 / 454 at step k, connection dropped at step k, for every step k} x {2, 3 exchanges}
+	rounds := 1
+	if thorough {
+		rounds = 10
+	}
+	for round := 0; round < rounds && !r.Expired(); round++ {
+		for _, m := range mechs {
+			type dm struct {
+				mode string
+				at   int
+			}
+			ds := []dm{{"ok", 0}}
+			for k := 0; k < exSteps[m]; k++ {
+				ds = append(ds, dm{"f535", k}, dm{"t454", k}, dm{"drop", k})
+			}
+			for _, d := range ds {
+				for _, n := range []int{2, 3} {
+					user, secret := genString(r, 1), genString(r, 1)
+					if round%2 == 1 {
+						user, secret = genString(r, 0)+"u", genString(r, 0)+"p"
+					}
+					ver := []int{tls.VersionTLS12, tls.VersionTLS13}[(n+d.at+round)%2]
+					runCase(r, hx.Case{ID: r.NewID(), Kind: "xs", Args: []string{m, hx.Hex([]byte(user)), hx.Hex([]byte(secret)), "~",
+						hx.Hex(randBytes(r, 1+r.Rng.Intn(32))), strconv.Itoa(1 + r.Rng.Intn(4)), strconv.Itoa(ver), d.mode, strconv.Itoa(d.at), strconv.Itoa(n)}})
+				}
+			}
+		}
 	}
 	// realistic and maximal iteration counts: reference server only (the extracted hashes are too slow for them)
 	big := []int{64, 1000, 4096, 20000}
